@@ -1,12 +1,14 @@
 import GarbleVerif.Proofs.Encoding
 import GarbleVerif.Model.Literal
+import GarbleVerif.Proofs.LiteralSafe
 /-!
 # C09 — literal encoding round-trips and matches the documented bit layout
 
 `Val.encode` / `Ty.decode` / `Val.hasType` are the *specification* of the layout (big-endian
 two's complement integers; array elements, tuple fields and struct fields concatenated; enums
 as a tag followed by the zero-padded payload). For **every** type (any nesting) and every
-well-typed value:
+well-typed value the theorems below hold; `C09_accept_safe` ties the transliteration of `literal.rs`
+(`Lit.isOfType`, `Lit.asBits`) to this specification.
 -/
 namespace GV
 
@@ -40,12 +42,21 @@ theorem C09_int_bits (i : Int) (w : Nat) : (bitsToNat (intToBits i w) : Int) = i
     exact_mod_cast this
   rw [Nat.mod_eq_of_lt hlt', e]
 
-/-! ### statements about the transliterated `literal.rs` not yet proved (checked by correspondence) -/
+/-! ### the transliterated `literal.rs` against this specification -/
 
-/-- a literal the API accepts denotes a well-typed value and encodes to that value's bits -/
-def C09_accept_safe_Statement : Prop :=
-  ∀ (d : Defs) (l : Lit) (t : Ty), l.isOfType t = true →
-    ∃ v, l.denote t = some v ∧ v.hasType t = true ∧ l.asBits d = v.encode t
+/-- **a literal the API accepts is safe**: if `is_of_type` accepts a literal for a type (any nesting; `ArrayRepeat`,
+`Range`, struct fields in any order, unit and tuple variants), the literal denotes a well-typed value of that
+type and `as_bits` emits exactly that value's encoding. `DefsOK`: the struct / enum definitions used for the
+encoding are those of the type, struct fields have distinct names, unit variants have no fields. -/
+theorem C09_accept_safe (d : Defs) (l : Lit) (t : Ty) (hd : t.DefsOK d) (h : l.isOfType t = true) :
+    ∃ v, l.denote t = some v ∧ v.hasType t = true ∧ l.asBits d = v.encode t :=
+  Lit.accept d l t hd h
+
+/-- … and therefore to exactly `size(T)` bits that decode to the value it denotes -/
+theorem C09_accept_size (d : Defs) (l : Lit) (t : Ty) (hd : t.DefsOK d) (h : l.isOfType t = true) :
+    (l.asBits d).length = t.size ∧ ∃ v, l.denote t = some v ∧ t.decode (l.asBits d) = some v := by
+  obtain ⟨v, h1, h2, h3⟩ := Lit.accept d l t hd h
+  exact ⟨by rw [h3]; exact Val.encode_length v t h2, v, h1, by rw [h3]; exact Val.decode_encode v t h2⟩
 
 /-! ### non-vacuity -/
 
@@ -58,5 +69,17 @@ example : demoVal.encode demoTy =
     [true, true, true, true, true, true, false, true,  true,
      false, false, false, false, false, false, true, false, false, false, false, false, false, false, true, true] := by
   decide +kernel
+
+/-- a struct literal with its fields in another order than the definition, accepted and encoded in definition order -/
+def demoDefs : Defs := { structs := [("S", .cons "a" (.int .u8) (.cons "b" .bool .nil))], enums := [] }
+def demoStructTy : Ty := .struct "S" (.cons "a" (.int .u8) (.cons "b" .bool .nil))
+def demoStructLit : Lit := .struct "S" (.cons "b" .true (.cons "a" (.numU 5 .u8) .nil))
+
+example : demoStructLit.isOfType demoStructTy = true := by decide +kernel
+example : demoStructTy.DefsOK demoDefs := by
+  simp [demoStructTy, demoDefs, Ty.DefsOK, Fields.DefsOK, Defs.struct?, Fields.names]
+example : demoStructLit.asBits demoDefs = [false, false, false, false, false, true, false, true, true] := by
+  simp [demoStructLit, demoDefs, Lit.asBits, Defs.struct?, LitFields.asBitsInOrder, LitFields.findBits, natToBits,
+    IntTy.bits]
 
 end GV
